@@ -447,16 +447,32 @@ where
             untracked(|| format!("ret fold {}", sum))
         }
         OpKind::Values => {
-            for x in it.values() {
+            let view = it.values();
+            // what the view announces before it is used must be true of what it then yields (others may pull meanwhile): std's
+            // default `(0, None)` always is; anything else is logged and checked
+            let (lo, hi) = view.size_hint();
+            let mut yielded = 0usize;
+            for x in view {
                 tlog!("visit - {}", x.val());
                 x.forget();
+                yielded += 1;
+            }
+            if (lo, hi) != (0, None) && (yielded < lo || hi.map_or(false, |h| yielded > h)) {
+                tlog!("vhint-broken announced ({}, {:?}) yielded {}", lo, hi, yielded);
             }
             untracked(|| "ret done".to_string())
         }
         OpKind::IdsValues => {
-            for (i, x) in it.ids_and_values() {
+            let view = it.ids_and_values();
+            let (lo, hi) = view.size_hint();
+            let mut yielded = 0usize;
+            for (i, x) in view {
                 tlog!("visit {} {}", i, x.val());
                 x.forget();
+                yielded += 1;
+            }
+            if (lo, hi) != (0, None) && (yielded < lo || hi.map_or(false, |h| yielded > h)) {
+                tlog!("vhint-broken announced ({}, {:?}) yielded {}", lo, hi, yielded);
             }
             untracked(|| "ret done".to_string())
         }
